@@ -34,27 +34,16 @@ def run(ck):
     ck.fn(PROCESS)
     pm = ctx.parent_map(body)
 
-    # ---- T1: every adapter call in the whole library is `.await?` with identity conversion
+    # ---- T1 (where): transport calls occur only in process (or in local helpers that pathsum evaluates in place)
     n_adapter = 0
     for b in lib.facts["bodies"]:
         root = b["value"]
-        pmap = pm if b["def"] == PROCESS else ctx.parent_map(root)
         for x in hir.walk(root):
             cal = hir.base_path(hir.callee(x) or "")
             if cal and cal.startswith(ADAPTER):
                 n_adapter += 1
                 key = "%s:%s#%d" % (b["def"], cal.split("::")[-1], n_adapter)
-                par = pmap.get(id(x))
-                gp = pmap.get(id(par)) if par else None
-                ok = par is not None and par.get("k") == "Await" and gp is not None and gp.get("k") == "Try"
-                if ok:
-                    _, g1 = pathsum.split_generics(par.get("ty", ""))
-                    _, g2 = pathsum.split_generics(gp.get("to_ty", ""))
-                    ok = len(g1) == 2 and len(g2) == 2 and g1[1] == g2[1]
-                ck.judge(ok, "C10-T1", key, "`%s` is awaited in place and `?`-propagated unchanged" % hir.show(x),
-                         "transport call `%s` is not of the form `.await?` with identity error conversion (parent: %s / %s)"
-                         % (hir.show(x), par.get("k") if par else None, gp.get("k") if gp else None), hir.loc(x))
-                ck.judge(b["def"] == PROCESS, "C10-T1", key + ":where", "transport call inside process",
+                ck.judge(b["def"] == PROCESS or hir.base_path(b["def"]) in ctx.inline_helpers(lib), "C10-T1", key + ":where", "transport call inside process",
                          "transport call outside Interface::process in %s" % b["def"], hir.loc(x))
     ck.floor("C10-T1", "Adapter call sites", n_adapter, 3)
 
@@ -77,12 +66,36 @@ def run(ck):
     def is_res(t):
         return isinstance(t, tuple) and t and t[0] in ("loopvar", "local") and t[1] == res_id
 
+    # T1 (how): on every path the result of every transport call is inspected; a failed call ends the path at once
+    # with its own error, unchanged (`?`, or an explicit match returning Err(e))
+    seen_sites = {}
+    for i, x in enumerate(exits):
+        calls = [e for e in x.effects if e[0] == "call"]
+        for e in calls:
+            if not e[1].startswith(ADAPTER):
+                continue
+            t = ("call",) + e[1:]
+            d = ps.decided(pathsum.St(x.conds), t, OK)
+            awaited = any(a[0] == "await" and a[1] == t for a in x.effects)
+            key = "process:%s@%s" % (e[1].split("::")[-1], e[3].split(":")[-1])
+            verdict = seen_sites.setdefault(key, [])
+            if d is None:
+                verdict.append("its result is not inspected on a path (%s)" % x.kind)
+            elif d is False:
+                okx = x.kind in ("err", "return") and x.value == ("ctor", ERR, (("payload", t, ERR, 0),)) and calls[-1] is e
+                if not okx:
+                    verdict.append("after it failed the path goes on / returns something else: %s %s" % (x.kind, show_term(x.value) if x.value else ""))
+            if not awaited:
+                verdict.append("not awaited")
+    for key, verdict in sorted(seen_sites.items()):
+        ck.judge(not verdict, "C10-T1", key, "awaited; Ok continues, Err ends process at once with that error unchanged", "transport call %s: %s" % (key, "; ".join(sorted(set(verdict)))))
+
     # T2/T3
     for i, x in enumerate(exits):
         key = "process:exit#%d:%s" % (i, x.kind)
         if x.kind == "backedge":
             continue
-        if x.kind == "err":
+        if x.kind == "err" or (x.kind == "return" and x.value[0] == "ctor" and x.value[1] == ERR):
             v = x.value
             src = None
             if v[0] == "ctor" and v[1] == ERR and v[2] and v[2][0][0] == "payload" and is_adapter_call(v[2][0][1]):
